@@ -12,8 +12,10 @@ RULE = (
     "Recipes are functions over 1-3 one-dimensional memref arguments with 1-3 blocks (forward cf.br / cf.cond_br), nested scf.for "
     "(run-time trip counts 0..3), scf.if (i1 arguments or comparisons on induction variables, with and without else), an op with a region "
     "(\"test.op\"({...}) as in upstream dispatch_regions.mlir), and tagged statements of three kinds at any depth: data-mover ops "
-    "(memref.copy), compute ops (linalg.generic with/without library_call, dart.operation, dart.schedule on registered compute "
-    "accelerators) and neutral ops (test.op, external calls, snax.cluster_sync_op, alloc, subview); operands are arguments, allocs and "
+    "(memref.copy), compute ops (linalg.generic with/without library_call; dart.operation / dart.schedule on snax_alu and "
+    "snax_gemmx whose inner dart.generic is empty or holds kernel.add / kernel.mul / kernel.rescale on i32/i8; the same on snax_xdma with a "
+    "kernel no streamer extension provides), further data-mover ops (dart regions on snax_xdma with an extension kernel: kernel.add i32, "
+    "kernel.rescale i32->i8 / i8->i32) and neutral ops (test.op, external calls, snax.cluster_sync_op, alloc, subview); operands are arguments, allocs and "
     "static/dynamic subviews; optional index return value; nb_cores in 2..5; 2 input vectors. The real dispatch-regions{nb_cores=N} is "
     "applied; original and dispatched function are executed once per core id on the multi-core machine (snax_cluster_core_idx returns the id) "
     "and the trace of tagged ops (tag, evaluated operands) of core c must equal the original trace filtered by the rule known by "
@@ -28,7 +30,9 @@ ASSUMPTIONS = [
     "xDSL 0.70 compatibility shim (vlib/compat.py)",
     "interpreter vlib/interp.py (scf/cf/func/arith) and vlib/machine_multicore.py are the reference semantics; dispatchable ops are opaque events",
     "which core an op belongs to is fixed by the generator (memref.copy -> data mover; linalg.generic and dart streaming regions on "
-    "compute accelerators -> compute core 0), the classes dispatching_rules.py documents; xDMA streaming regions are not generated",
+    "compute accelerators -> compute core 0; dart streaming regions on snax_xdma -> data mover iff the kernel is provided by a streamer "
+    "extension, else compute), the classes dispatching_rules.py documents; snax_xdma is registered in a private context the way "
+    "snaxc/tools/config_parser.py registers it",
     "function-constant-pinning only supports single-block function bodies (Region.block); multi-block cases skip the pinning clause",
 ]
 
@@ -50,6 +54,22 @@ class Lazy:
         for k, v in dict(self.kw, **kw).items():
             out[k] = v() if callable(v) else v
         return out
+
+
+_CTX = []
+
+
+def ctx14():
+    """Private context: the default snax-opt context plus snax_xdma, registered the way snaxc/tools/config_parser.py does it."""
+    if not _CTX:
+        from snaxc.accelerators.snax_xdma import SNAXXDMAAccelerator
+        from vlib.ctx import fresh_ctx
+
+        c = fresh_ctx()
+        acc = SNAXXDMAAccelerator()
+        c.register_accelerator(SNAXXDMAAccelerator.name, lambda: acc)
+        _CTX.append(c)
+    return _CTX[0]
 
 
 def keep(kind, c, n):
@@ -129,6 +149,9 @@ def structural(mod, built, fname="main"):
 LATER_BLOCK_SIG = "dispatch-regions: multi-block function, dispatchable op in a block after the first block holding that kind stays unguarded"
 
 
+XDMA_SIG = "dispatching-rules: snax_xdma streaming region whose kernel no streamer extension provides gets no core guard (runs on all cores)"
+
+
 def later_block_unguarded(mod, built, tag, fname="main"):
     """The op with `tag` has no core guard at all and lives in a function-body block that comes after the first block
     containing an op of the same kind (the structural feature of the known multi-block defect)."""
@@ -184,13 +207,13 @@ def _run(mod, fname, args, c, n, what, detail):
 def prop(r):
     built = G.build(r)
     n = r["nb_cores"]
-    orig = parse(built.text, shared_ctx())
+    orig = parse(built.text, ctx14())
     orig.verify()
     disp = orig.clone()
     before = built.text
     try:
         with time_limit(30):
-            run_pass(disp, "dispatch-regions", nb_cores=n)
+            run_pass(disp, "dispatch-regions", ctx=ctx14(), nb_cores=n)
     except PassTimeout:
         raise Reject("dispatch-regions did not terminate within 30 s")
     except Exception as e:
@@ -200,6 +223,10 @@ def prop(r):
     except Exception as e:
         raise Violation("dispatch:invalid-ir-after-pass", dict(error=str(e)[:300], before=before))
     det = Lazy(nb_cores=n, before=before, after=lambda: to_text(disp))
+    for op in disp.walk():
+        t = tag_of(op)
+        if t is not None and ":snax_xdma:" in built.opnames.get(t, "") and built.kinds[t] == G.COMPUTE and not core_guard_ancestors(op):
+            raise Violation(XDMA_SIG, det.done(tag=t, op=built.opnames[t]))
     s = structural(disp, built)
     if s is not None:
         raise Violation("dispatch:structure:" + s.split(":")[0], det.done(problem=s))
@@ -216,7 +243,7 @@ def prop(r):
         ndisp = sum(1 for k in built.kinds.values() if k != G.NEUTRAL)
         try:
             with time_limit(30):
-                run_pass(pinned, "function-constant-pinning")
+                run_pass(pinned, "function-constant-pinning", ctx=ctx14())
             pinned.verify()
         except PassTimeout:
             raise Reject("function-constant-pinning did not terminate within 30 s")
